@@ -36,6 +36,15 @@ def run(ctx):
             d = pro + rng.choice(['\n', '  \n', ' \t\n\n', '']) + d + rng.choice(['', '\n', '  \n'])
             kind = 'prologue'
         docs.append((d, kind))
+    # documents combining every feature (loops, conditionals, reuse, groups: their indentation and tails end up in separate text
+    # events of the output, which is where the writer's coalescing matters)
+    import docfuzz
+    frng = rng.fork('fixpoint-fuzz')
+    for i in range(300 if quick else 6000):
+        x, _cfg = docfuzz.gen(frng)
+        if frng.chance(0.5):      # indented layout: every element on its own line, closing tags indented
+            x = x.replace('><', '>\n    <').replace('\n    </', '\n  </')
+        docs.append((x, 'fuzz'))
     first = []
     for i, (d, kind) in enumerate(docs):
         c1 = docgen.rand_cfg(rng, local_styles=True)
